@@ -1,11 +1,68 @@
-// Package c09 is the correspondence/oracle harness for property C09.
+// Package c09: layout analysis never loses, invents or duplicates text.
 package c09
 
-import "verifharness/hx"
+import (
+	"fmt"
+	"strings"
+
+	"verifharness/hx"
+)
 
 func init() { hx.Register("C09", Run, Replay) }
 
-// Run is not built yet for this property.
-func Run(c *hx.Ctx) { c.Note("C09: harness not built") }
+type kase struct {
+	Seed  uint64 `json:"seed"`
+	Index int    `json:"index"`
+	Tags  string `json:"tags"`
+	Page  *Page  `json:"page,omitempty"`
+}
 
-func Replay(c *hx.Ctx, kase map[string]interface{}) {}
+func mkCase(c *hx.Ctx, i int, pg Page) kase {
+	k := kase{Seed: c.Seed, Index: i, Tags: strings.Join(pg.Tags, ",")}
+	if len(pg.F) <= 60 {
+		k.Page = &pg
+	}
+	return k
+}
+
+func runPage(c *hx.Ctx, k kase, pg Page) {
+	if len(pg.F) <= 400 {
+		mechanisms(c, k, pg)
+	} else {
+		c.Count("mechanism-ops-skipped:more-than-400-fragments")
+	}
+	oracleLayout(c, k, pg)
+	oraclePDF(c, k, pg)
+}
+
+func Run(c *hx.Ctx) {
+	c.Rep.Rule = "synthetic pages (integer coordinates over a denominator 1, 2 or 4): 1-4 columns of ragged or justified lines of unique tokens, headings of larger size, lists, single-word lines, short last lines, right-to-left runs, spanning titles, character-level fragmentation, exact and shifted duplicate layers, an outlier word, a zero-width glyph at the right edge, narrow marks in the left margin, a one-character line, boxes higher than the font size, visual / row-major / shuffled stream order, inverted Y, scaled coordinates; each page goes through the layout detectors directly and, rendered to PDF, through the public API in every text mode. Non-trivial = the page has fragments."
+	n := c.N(150, 1500)
+	for i := 0; i < n; i++ {
+		r := c.Rng.Fork(uint64(i))
+		pg := genPage(r)
+		k := mkCase(c, i, pg)
+		c.Current(k)
+		for _, t := range pg.Tags {
+			c.Count(t)
+		}
+		runPage(c, k, pg)
+		c.Case(fmt.Sprintf("%d/%d", c.Seed, i), len(pg.F) > 0)
+	}
+}
+
+func Replay(c *hx.Ctx, m map[string]interface{}) {
+	var k kase
+	if err := hx.Remarshal(m, &k); err != nil {
+		c.Note("bad case: %v", err)
+		return
+	}
+	var pg Page
+	if k.Page != nil {
+		pg = *k.Page
+	} else {
+		c.Seed = k.Seed
+		pg = genPage(hx.NewRng(k.Seed).Fork(uint64(k.Index)))
+	}
+	runPage(c, k, pg)
+}
